@@ -45,26 +45,34 @@ SHARD = 150
 
 
 DTYPES = {'f32': torch.float32, 'f64': torch.float64, 'f16': torch.float16, 'i64': torch.int64,
-          'bool': torch.bool, 'i32': torch.int32, 'int': torch.int64, 'float': torch.float32}
-# dtype codes of the Coq model (cr_adt / c_adt)
-DCODE = {torch.float32: 0, torch.float64: 1, torch.float16: 2, torch.int64: 3, torch.bool: 4, torch.int32: 5}
+          'bool': torch.bool, 'i32': torch.int32, 'int': torch.int64, 'float': torch.float32,
+          'u8': torch.uint8, 'i8': torch.int8}
+# dtype codes of the Coq model (cr_adt / c_adt / c_odt)
+DCODE = {torch.float32: 0, torch.float64: 1, torch.float16: 2, torch.int64: 3, torch.bool: 4, torch.int32: 5,
+         torch.uint8: 6, torch.int8: 7}
 
 
 class Recorder(torch.nn.Module):
     """X goes through batch-norm and dropout in the parameters' dtype; the args bypass them and are
-    encoded in float64, so an arg value that needs more than 24 significant bits stays exact"""
-    def __init__(self, width, kind, heads):
+    encoded in float64, so an arg value that needs more than 24 significant bits stays exact.
+    params=False: a module without parameters and buffers (dropout only): predict then takes the
+    dtype from X and must hand X over uncast."""
+    def __init__(self, width, kind, heads, params=True, out3d=False):
         super().__init__()
-        self.bn = torch.nn.BatchNorm1d(width, eps=0.0)
+        if params:
+            self.bn = torch.nn.BatchNorm1d(width, eps=0.0)
         self.drop = torch.nn.Dropout(0.5)
-        self.kind, self.heads = kind, heads
+        self.kind, self.heads, self.params, self.out3d = kind, heads, params, out3d
         self.log = []
 
     def forward(self, X, *args):
         self.log.append(([bool(m.training) for m in self.modules()], bool(torch.is_grad_enabled()),
                          X.detach().clone(), [a.detach().clone() for a in args]))
-        x = self.drop(self.bn(X.reshape(X.shape[0], -1)))
+        x = X.reshape(X.shape[0], -1)
+        x = self.drop(self.bn(x)) if self.params else self.drop(x.double())
         z = torch.cat([x.double()] + [a.reshape(a.shape[0], -1).double() for a in args], dim=1)
+        if self.out3d:
+            z = z.reshape(z.shape[0], z.shape[1], 1)
         if self.kind == 'tensor':
             return z
         outs = [z * float(j + 1) for j in range(self.heads)]
@@ -84,38 +92,70 @@ def rows_of(t, exps=None):
     return t.to(torch.int64).tolist()
 
 
-def arg_exp(a):
-    return int(a.get('exp', 0))
-
-
-def arg_width(a):
+def prod(shape):
     w = 1
-    for d in a['shape']:
+    for d in shape:
         w *= d
     return w
 
 
-def build(inp):
+def arg_spec(inp, a):
+    """(dtype name, exponent, trailing shape) of an arg; an alias of X takes X's"""
+    if a.get('alias') == 'X':
+        return inp.get('xdtype', 'f32'), 0, list(inp['xshape'])
+    if isinstance(a.get('alias'), int):
+        return arg_spec(inp, inp['args'][a['alias']])
+    return a['dtype'], int(a.get('exp', 0)), list(a['shape'])
+
+
+def arg_exp(inp, a):
+    return arg_spec(inp, a)[1]
+
+
+def arg_width(inp, a):
+    return prod(arg_spec(inp, a)[2])
+
+
+def as_view(t):
+    """the same values as a non-contiguous view: every other row of a tensor twice as long"""
+    big = torch.zeros([2 * t.shape[0]] + list(t.shape[1:]), dtype=t.dtype)
+    big[0::2] = t
+    if t.dtype != torch.bool:
+        big[1::2] = 99
+    return big[0::2]
+
+
+def build(inp, x_rows=None):
     """X holds small integers (exact in every dtype used); arg rows are integers z, the tensor
-    holds z / 2^exp in the arg's own dtype (the generator only asks for representable values)"""
-    n = len(inp['X'])
-    X = torch.tensor(inp['X'], dtype=DTYPES[inp.get('xdtype', 'f32')]).reshape([n] + list(inp['xshape']))
+    holds z / 2^exp in the arg's own dtype (the generator only asks for representable values).
+    An arg may be the very same tensor object as an earlier arg or as X."""
+    x_rows = inp['X'] if x_rows is None else x_rows
+    n = len(x_rows)
+    X = torch.tensor(x_rows, dtype=torch.float64).reshape([n] + list(inp['xshape'])).to(DTYPES[inp.get('xdtype', 'f32')])
+    if inp.get('views'):
+        X = as_view(X)
     args = []
     for a in inp['args']:
+        if a.get('alias') == 'X':
+            args.append(X)
+            continue
+        if isinstance(a.get('alias'), int):
+            args.append(args[a['alias']])
+            continue
         t = torch.tensor(a['rows'], dtype=torch.float64).reshape([len(a['rows'])] + list(a['shape']))
-        t = (t / 2.0 ** arg_exp(a)).to(DTYPES[a['dtype']])
-        args.append(t)
+        t = (t / 2.0 ** int(a.get('exp', 0))).to(DTYPES[a['dtype']])
+        args.append(as_view(t) if inp.get('views') else t)
     return X, args
 
 
 def width_of(inp):
-    return max(len(inp['X'][0]) if inp['X'] else 1, 1)
+    return max(len(inp['X'][0]) if inp['X'] else prod(inp['xshape']), 1)
 
 
 def out_exps(inp):
     e = [0] * width_of(inp)
     for a in inp['args']:
-        e += [arg_exp(a)] * arg_width(a)
+        e += [arg_exp(inp, a)] * arg_width(inp, a)
     return e
 
 
@@ -125,17 +165,40 @@ def modes_of(inp):
     return [bool(inp.get('train0', False))] * 3
 
 
+def bsize(b, btype):
+    import numpy
+    if btype == 'np64':
+        return numpy.int64(b)
+    if btype == 'np32':
+        return numpy.int32(b)
+    return b
+
+
+def eff_b(inp):
+    """the batch size the call uses (the default 32 when it is not passed)"""
+    return 32 if inp['b'] is None else inp['b']
+
+
 def run_impl(inp):
+    import contextlib
+    import io
     from tangermeme.predict import predict
-    X, args = build(inp)
-    X0, args0 = X.clone(), [a.clone() for a in args]
-    model = Recorder(width_of(inp), inp['kind'], inp['heads']).to(DTYPES[inp.get('mdtype', 'f32')])
+    x_final = inp['X']
+    x_rows = x_final
+    if inp.get('mutate') and x_final:
+        # the caller changes X[0] in place between the prelude call(s) and the checked call
+        x_rows = [list(r) for r in x_final]
+        x_rows[0] = [v - 1 for v in x_rows[0]]
+    X, args = build(inp, x_rows)
+    model = Recorder(width_of(inp), inp['kind'], inp['heads'], params=not inp.get('noparams'),
+                     out3d=bool(inp.get('out3d')))
+    if not inp.get('noparams'):
+        model = model.to(DTYPES[inp.get('mdtype', 'f32')])
     oe = out_exps(inp)
     # the history of the module before the call: a training flag per module of model.modules()
     # (root, bn, drop) -- e.g. model.eval(); model.drop.train() gives [False, False, True]
     for m, t in zip(model.modules(), modes_of(inp)):
         m.training = bool(t)
-    buf0 = [b.detach().clone() for b in model.buffers()]
     form = inp.get('args_form', 'tuple')
     if form == 'none' and not args:
         pargs = None
@@ -143,27 +206,56 @@ def run_impl(inp):
         pargs = list(args)
     else:
         pargs = tuple(args)
-    out = {'ok': False, 'ytype': None, 'y': None}
+    device = torch.device('cpu') if inp.get('device_form') == 'obj' else 'cpu'
+
+    def call(b, btype):
+        kw = {'device': device}
+        if b is not None:
+            kw['batch_size'] = bsize(b, btype)
+        if inp.get('verbose'):
+            kw['verbose'] = True
+        with contextlib.redirect_stderr(io.StringIO()):
+            return predict(model, X, args=pargs, **kw)
+
+    out = {'ok': False, 'ytype': None, 'y': None, 'meta': [], 'prelude_ok': True}
+    # earlier calls of the sequence: same module object, same X / args objects, another batch size
+    X0, args0 = X.clone(), [a.clone() for a in args]
+    for pre in inp.get('prelude', []):
+        try:
+            with torch.set_grad_enabled(bool(inp['grad0'])):
+                call(pre['b'], 'int')
+        except Exception:
+            pass
+    pre_unchanged = bool(torch.equal(X, X0) and all(torch.equal(a, b) for a, b in zip(args, args0)))
+    if inp.get('mutate') and x_final:
+        with torch.no_grad():
+            X[0] += 1
+    model.log = []
+    out['state_before'] = [bool(m.training) for m in model.modules()]
+    X0, args0 = X.clone(), [a.clone() for a in args]
+    buf0 = [b.detach().clone() for b in model.buffers()]
     try:
         with torch.set_grad_enabled(bool(inp['grad0'])):
-            y = predict(model, X, args=pargs, batch_size=inp['b'], device='cpu')
+            y = call(inp['b'], inp.get('btype', 'int'))
         if isinstance(y, torch.Tensor):
-            out.update(ok=True, ytype='T', y=rows_of(y, oe))
+            out.update(ok=True, ytype='T', y=rows_of(y, oe), meta=[(DCODE.get(y.dtype, 99), list(y.shape))])
         elif isinstance(y, (list, tuple)):
-            out.update(ok=True, ytype='M', y=[rows_of(h, oe) for h in y])
+            out.update(ok=True, ytype='M', y=[rows_of(h, oe) for h in y],
+                       meta=[(DCODE.get(h.dtype, 99), list(h.shape)) for h in y])
         else:
             out.update(ok=True, ytype='?', y=None)
     except Exception as e:
         out['error'] = type(e).__name__
     trace = []
+    specs = [arg_spec(inp, a) for a in inp['args']]
     for tr, gr, Xw, Aw in model.log:
         trace.append({'tr': tr, 'gr': gr, 'X': rows_of(Xw),
-                      'args': [rows_of(a, [arg_exp(sp)] * arg_width(sp)) if k < len(inp['args']) else rows_of(a)
-                               for k, (a, sp) in enumerate(zip(Aw, inp['args'] + [{}] * len(Aw)))],
+                      'args': [rows_of(a, [specs[k][1]] * prod(specs[k][2])) if k < len(specs) else rows_of(a)
+                               for k, a in enumerate(Aw)],
                       'adt': [DCODE.get(a.dtype, 99) for a in Aw]})
     out['trace'] = trace
     out['buffers_unchanged'] = bool(all(torch.equal(a, b) for a, b in zip(model.buffers(), buf0)))
-    out['unchanged'] = bool(torch.equal(X, X0) and X.dtype == X0.dtype and
+    out['unchanged'] = bool(pre_unchanged and torch.equal(X, X0) and X.dtype == X0.dtype and
                             all(torch.equal(a, b) and a.dtype == b.dtype for a, b in zip(args, args0)))
     return out
 
@@ -175,12 +267,29 @@ def rows_lit(r):
     return POISON if r is None else C.zmat(r)
 
 
+def arg_rows(inp, a):
+    if a.get('alias') == 'X':
+        return inp['X']
+    if isinstance(a.get('alias'), int):
+        return arg_rows(inp, inp['args'][a['alias']])
+    return a['rows']
+
+
+def arg_dtype(inp, a):
+    if isinstance(a.get('alias'), int):
+        return arg_dtype(inp, inp['args'][a['alias']])
+    return arg_spec(inp, a)[0]
+
+
 def coq_case(inp, out):
     kind = {'tensor': 'KTensor', 'tuple': 'KTuple', 'list': 'KList'}[inp['kind']]
-    call = '(Call %s %s (MS %s %s) %s %s %s %s)' % (
-        kind, C.nat(inp['heads']), C.lst([C.boolean(t) for t in modes_of(inp)]), C.boolean(inp['grad0']), C.z(inp['b']),
-        C.zmat(inp['X']), C.lst([C.zmat(a['rows']) for a in inp['args']]),
-        C.natlist([DCODE[DTYPES[a['dtype']]] for a in inp['args']]))
+    state = out.get('state_before', modes_of(inp))
+    w = len(out_exps(inp))
+    call = '(Call %s %s (MS %s %s) %s %s %s %s %s %s)' % (
+        kind, C.nat(inp['heads']), C.lst([C.boolean(t) for t in state]), C.boolean(inp['grad0']), C.z(eff_b(inp)),
+        C.zmat(inp['X']), C.lst([C.zmat(arg_rows(inp, a)) for a in inp['args']]),
+        C.natlist([DCODE[DTYPES[arg_dtype(inp, a)]] for a in inp['args']]),
+        C.nat(DCODE[torch.float64]), C.zlist([w, 1] if inp.get('out3d') else [w]))
     if not out['ok']:
         val = 'Err'
     elif out['ytype'] == 'T':
@@ -192,26 +301,29 @@ def coq_case(inp, out):
     trace = C.lst(['(CR %s %s %s %s %s)' % (C.lst([C.boolean(x) for x in t['tr']]), C.boolean(t['gr']), rows_lit(t['X']),
                                             C.lst([rows_lit(a) for a in t['args']]), C.natlist(t['adt']))
                    for t in out['trace']])
-    return '(%s, (%s, %s), %s, %s)' % (call, val, trace, C.boolean(out['unchanged']),
-                                       C.boolean(out.get('buffers_unchanged', True)))
+    meta = C.lst(['(%s, %s)' % (C.nat(d), C.zlist(sh)) for d, sh in out.get('meta', [])])
+    return '(%s, (%s, %s), %s, %s, %s)' % (call, val, trace, C.boolean(out['unchanged']),
+                                           C.boolean(out.get('buffers_unchanged', True)), meta)
 
 
 def aligned(inp):
-    return all(len(a['rows']) == len(inp['X']) for a in inp['args'])
+    return all(len(arg_rows(inp, a)) == len(inp['X']) for a in inp['args'])
 
 
 def nontrivial(inp, out):
-    n, b = len(inp['X']), inp['b']
+    n, b = len(inp['X']), eff_b(inp)
     if n < 1 or b < 1 or not aligned(inp) or not out['ok']:
         return False
     distinct = bool(inp['args']) and n > 1 and all(
-        len({tuple(r) for r in a['rows']}) == n for a in inp['args'])
+        len({tuple(r) for r in arg_rows(inp, a)}) == n for a in inp['args'])
     return (n % b != 0) or distinct
 
 
 def hist_key(inp, out):
-    n, b = len(inp['X']), inp['b']
-    if not aligned(inp):
+    n, b = len(inp['X']), eff_b(inp)
+    if n == 0:
+        rel = 'n=0'
+    elif not aligned(inp):
         rel = 'misaligned'
     elif b < 1:
         rel = 'b<1'
@@ -221,10 +333,22 @@ def hist_key(inp, out):
         rel = 'b=n'
     else:
         rel = 'b|n' if n % b == 0 else 'b!|n'
-    md = inp.get('mdtype', 'f32')
-    dts = 'same-dtype' if all(a['dtype'] in (md, 'float' if md == 'f32' else md) for a in inp['args']) else 'other-dtype'
-    return '%s/args%d/%s/%s/%s/%s/%s' % (inp['kind'], len(inp['args']), state_class(inp), 'model-' + md,
-                                         dts if inp['args'] else 'noargs', rel, 'ok' if out['ok'] else 'raise')
+    md = 'noparams' if inp.get('noparams') else inp.get('mdtype', 'f32')
+    dts = 'same-dtype' if all(arg_dtype(inp, a) in (md, 'float') for a in inp['args']) else 'other-dtype'
+    opts = [k for k in ('views', 'out3d', 'verbose', 'mutate') if inp.get(k)]
+    if inp['b'] is None:
+        opts.append('b-default')
+    if inp.get('btype', 'int') != 'int':
+        opts.append('b-numpy')
+    if inp.get('prelude'):
+        opts.append('sequence')
+    if any('alias' in a for a in inp['args']):
+        opts.append('alias')
+    if inp.get('device_form') == 'obj':
+        opts.append('device-obj')
+    return '%s/args%d/%s/%s/%s/x-%s/%s/%s/%s' % (
+        inp['kind'], len(inp['args']), state_class(inp), 'model-' + md, dts if inp['args'] else 'noargs',
+        inp.get('xdtype', 'f32'), '+'.join(opts) or 'plain', rel, 'ok' if out['ok'] else 'raise')
 
 
 def state_class(inp):
@@ -277,7 +401,7 @@ FLAVOURS = ['i64-small', 'f32-small', 'f32-small', 'f64-small', 'f64-big', 'f64-
 
 def make(rng, n, b, nargs, kind, misalign=None):
     """one input; every arg gets its own permutation of example tags"""
-    xshape = rng.choice([[1], [1], [2], [2, 1], [1, 2]])
+    xshape = rng.choice([[1], [1], [2], [2, 1], [1, 2], []])
     xw = 1
     for d in xshape:
         xw *= d
@@ -286,8 +410,8 @@ def make(rng, n, b, nargs, kind, misalign=None):
     X = [[ids[i]] + [rng.randint(0, 9) for _ in range(xw - 1)] for i in range(n)]
     args = []
     for k in range(nargs):
-        shape = rng.choice([[], [1], [1], [2]])
-        w = 2 if shape == [2] else 1
+        shape = rng.choice([[], [1], [1], [2], [2, 1]])
+        w = prod(shape)
         m = n
         if misalign is not None and k == misalign[0]:
             m = misalign[1]
@@ -298,10 +422,17 @@ def make(rng, n, b, nargs, kind, misalign=None):
         rows = [[first(k, tags[i])] + [(rng.randint(0, 1) if dt == 'bool' else rng.randint(0, 9) * 2 ** exp)
                                        for _ in range(w - 1)] for i in range(m)]
         args.append({'rows': rows, 'shape': shape, 'dtype': dt, 'exp': exp, 'flavour': fl})
+        if misalign is None and rng.random() < 0.04:
+            # the very same tensor object passed again: an earlier arg, or X itself
+            args[-1] = {'alias': rng.randrange(k)} if k > 0 and rng.random() < 0.5 else {'alias': 'X'}
+    noparams = rng.random() < 0.08
     return {'kind': kind, 'heads': 1 if kind == 'tensor' else rng.randint(1, 3),
             'modes': pick_state(rng), 'grad0': rng.random() < 0.5, 'b': b,
-            'mdtype': 'f64' if rng.random() < 0.15 else 'f32',
-            'xdtype': rng.choice(['f32'] * 6 + ['f64', 'i64']),
+            'mdtype': 'f64' if rng.random() < 0.15 else 'f32', 'noparams': noparams,
+            'xdtype': rng.choice(['f32', 'f64']) if noparams else rng.choice(['f32'] * 6 + ['f64', 'i64', 'u8', 'i8']),
+            'views': rng.random() < 0.08, 'out3d': rng.random() < 0.1, 'verbose': rng.random() < 0.05,
+            'btype': rng.choice(['int'] * 8 + ['np64', 'np32']),
+            'device_form': rng.choice(['str', 'str', 'obj']),
             'X': X, 'xshape': xshape, 'args': args,
             'args_form': rng.choice(['tuple', 'list', 'none'] if nargs == 0 else ['tuple', 'list'])}
 
@@ -336,10 +467,33 @@ def generate(tier, rng):
         m = rng.choice([x for x in (1, n - 1, n + 1, 2 * n, n + 2, 0) if x != n and x >= 0])
         yield make(rng, n, rng.randint(1, n + 3), nargs, rng.choice(KINDS),
                    misalign=(rng.randrange(nargs), m))
+    # batch_size not passed (default 32) for n around and above 32, and very large batch sizes
+    for _ in range(40 if quick else 300):
+        n = rng.choice([1, 5, 31, 32, 33, 40, 64, 65, rng.randint(1, 70)])
+        c = make(rng, n, None, rng.randint(0, 3), rng.choice(KINDS))
+        if rng.random() < 0.2:
+            c['b'] = rng.choice([10 ** 9, 2 ** 31, n * 1000])
+            c['btype'] = rng.choice(['int', 'np64'])
+        yield c
+    # sequences in one process: the same module object and the same X / args objects are used for
+    # one or two earlier calls with ANOTHER batch size (the first call leaves the module in eval
+    # mode), optionally the caller changes X in place in between; the last call is the checked one
+    for _ in range(80 if quick else 600):
+        n = rng.randint(1, 12)
+        c = make(rng, n, rng.randint(1, n + 3), rng.randint(0, 3), rng.choice(KINDS))
+        c['prelude'] = [{'b': rng.randint(1, n + 3)} for _ in range(rng.randint(1, 2))]
+        c['mutate'] = rng.random() < 0.5
+        if c['mutate']:
+            c['X'][0] = [v + 1 for v in c['X'][0]]      # stays distinct and small
+        yield c
     # outside the quantifier (the spec is silent; the model still mirrors the code)
     for _ in range(12 if quick else 60):
         n = rng.randint(1, 6)
         yield make(rng, n, rng.choice([0, -1, -2]), rng.randint(0, 2), rng.choice(KINDS))
+    for _ in range(4 if quick else 20):      # no example at all
+        c = make(rng, 1, rng.randint(1, 3), 0, rng.choice(KINDS))
+        c['X'] = []
+        yield c
 
 
 def shrink(inp):
@@ -350,14 +504,21 @@ def shrink(inp):
             if cut >= 1:
                 c = dict(inp)
                 c['X'] = inp['X'][:n - cut]
-                c['args'] = [dict(a, rows=a['rows'][:len(a['rows']) - cut] if (al or len(a['rows']) > cut) else a['rows'])
+                c['args'] = [a if 'rows' not in a else
+                             dict(a, rows=a['rows'][:len(a['rows']) - cut] if (al or len(a['rows']) > cut) else a['rows'])
                              for a in inp['args']]
                 yield c
-    if inp['b'] > 1:
+    if inp['b'] is not None and inp['b'] > 1:
         yield dict(inp, b=inp['b'] - 1)
         yield dict(inp, b=max(1, inp['b'] // 2))
-    for k in range(len(inp['args'])):
-        yield dict(inp, args=inp['args'][:k] + inp['args'][k + 1:])
+    for k in ('views', 'out3d', 'verbose', 'noparams'):
+        if inp.get(k):
+            yield dict(inp, **{k: False})
+    if inp.get('prelude'):
+        yield dict(inp, prelude=inp['prelude'][1:])
+    if not any(isinstance(a.get('alias'), int) for a in inp['args']):
+        for k in range(len(inp['args'])):
+            yield dict(inp, args=inp['args'][:k] + inp['args'][k + 1:])
     if inp['heads'] > 1:
         yield dict(inp, heads=inp['heads'] - 1)
     if any(modes_of(inp)) or inp['grad0']:
